@@ -39,7 +39,7 @@ def run(seed, tier, replay=None):
     # timed-out attempts whatever the process then does (exits 0 on SIGTERM, ignores it, writes and exits): result Timeout
     r = mix.merge(r, tim.run_family("slow", seed, tier, 4, 30, kinds=("result",)))
     # a leaky pass whose pipes are still being watched when a fail-fast cancellation arrives
-    r = mix.merge(r, tim.run_family("cancel", seed, tier, 6, 30, kinds=("result",)))
+    r = mix.merge(r, tim.run_family("cancel", seed, tier, 7, 35, kinds=("result",)))
     # "reported flaky iff …" also in the run statistics and the summary line: the real RunStats / Reporter against the model (p_junit)
     from props import C17
     j = C17.run_junit(seed, tier)
